@@ -272,6 +272,19 @@ func (c *Config) getField(name string, idx int, opts *options) (value, Error) {
 
 // setField supports the options: PathSep, MetaData
 func (c *Config) setField(name string, idx int, v value, options []Option) Error {
+	if c.fields == nil {
+		// the zero value of Config (a Config not created by New)
+		c.fields = &fields{}
+	}
+	if sub, ok := v.(cfgSub); ok {
+		if sub.c == nil {
+			return raiseNil(ErrNilConfig)
+		}
+		if sub.c.fields == nil {
+			sub.c.fields = &fields{}
+		}
+	}
+
 	opts := makeOptions(options)
 	p := parsePathIdx(name, idx, opts)
 
